@@ -369,6 +369,34 @@ pub struct SrvCfg {
     pub gated: bool,
 }
 
+// A thread that does nothing but acknowledge pings: how long the operating system takes to run a
+// thread that has just been woken, measured at the moment it matters.
+static CANARY: (Mutex<(u64, u32)>, Condvar) = (Mutex::new((0, 0)), Condvar::new());
+static CANARY_ACK: std::sync::atomic::AtomicU64 = std::sync::atomic::AtomicU64::new(0);
+fn canary_ping() -> u64 {
+    let mut g = CANARY.0.lock().unwrap();
+    if g.1 != std::process::id() {
+        // (threads do not survive a fork)
+        g.1 = std::process::id();
+        std::thread::Builder::new()
+            .name("vh-canary".into())
+            .spawn(|| {
+                let mut g = CANARY.0.lock().unwrap();
+                loop {
+                    CANARY_ACK.store(g.0, Ordering::SeqCst);
+                    g = CANARY.1.wait(g).unwrap();
+                }
+            })
+            .expect("canary thread");
+    }
+    g.0 += 1;
+    CANARY.1.notify_all();
+    g.0
+}
+fn canary_acked(ping: u64) -> bool {
+    CANARY_ACK.load(Ordering::SeqCst) >= ping
+}
+
 impl Srv {
     pub fn start(dir: &Path, cfg: &SrvCfg) -> Result<Srv, String> {
         rmrf(dir);
@@ -537,6 +565,7 @@ impl Srv {
     /// gates, and the same still true after a short stability window.
     pub fn quiesce(&self, e0: u64) -> bool {
         let t0 = Instant::now();
+        let ping = canary_ping();
         // phase 1: an event that reaches the server wakes it at once (loopback delivery is synchronous);
         // if its epoch has not moved within a grace period the event did not concern it
         while iohook::srv_epoch() <= e0 && t0.elapsed() < Duration::from_micros(2500) {
@@ -544,6 +573,22 @@ impl Srv {
                 break;
             }
             std::thread::sleep(Duration::from_micros(50));
+        }
+        if iohook::srv_epoch() <= e0 && iohook::srv_idle() {
+            // about to conclude that the event did not concern the server: on a loaded machine a
+            // woken thread may simply not have run yet. A canary thread woken at the start of this
+            // call must have run (and then the server gets the same grace again) first.
+            let t1 = Instant::now();
+            while !canary_acked(ping) && t1.elapsed() < Duration::from_secs(2) {
+                std::thread::sleep(Duration::from_micros(50));
+            }
+            if t1.elapsed() > Duration::from_micros(200) {
+                let t2 = Instant::now();
+                let extra = (t1.elapsed() * 4).min(Duration::from_millis(500));
+                while iohook::srv_epoch() <= e0 && iohook::srv_idle() && t2.elapsed() < extra {
+                    std::thread::sleep(Duration::from_micros(50));
+                }
+            }
         }
         let e0 = if iohook::srv_epoch() <= e0 && iohook::srv_idle() { e0.saturating_sub(1) } else { e0 };
         loop {
